@@ -254,32 +254,4 @@ def miri_pass(total, seed, nseeds=16):
     return {"seeds": nseeds, "requests_per_seed": len(reqs), "results_observed": len(lines), "ub_or_race_reports": res["ub_reports"], "differing_results": bad, "wall_s": res["wall_s"]}
 
 
-def run_miri(reqs, nseeds, timeout=3000):
-    """Run the harness under Miri with many scheduler seeds; returns parsed stdout lines."""
-    build._link_repo()
-    rundir = os.path.join(BUILD, "run", "miri-%d" % os.getpid())
-    os.makedirs(rundir, exist_ok=True)
-    path = os.path.join(rundir, "req.jsonl")
-    with open(path, "w") as f:
-        for i, r in enumerate(reqs):
-            r["id"] = i
-            f.write(json.dumps(r) + "\n")
-    env = dict(os.environ, CARGO_NET_OFFLINE="true", MIRIFLAGS="-Zmiri-disable-isolation -Zmiri-many-seeds=0..%d" % nseeds)
-    t0 = time.time()
-    try:
-        p = subprocess.run(["cargo", "+nightly", "miri", "run", "--offline", "--target-dir", os.path.join(BUILD, "harness-miri" + build.SUFFIX), "--", path],
-                           cwd=os.path.join(VERIF, "harness"), env=env, stdout=subprocess.PIPE, stderr=subprocess.PIPE, timeout=timeout, stdin=subprocess.DEVNULL)
-    except subprocess.TimeoutExpired:
-        return {"inconclusive": "miri timed out after %ds" % timeout}
-    err = p.stderr.decode("utf-8", "replace")
-    lines = []
-    for l in p.stdout.split(b"\n"):
-        if l.strip().startswith(b"{"):
-            try:
-                lines.append(json.loads(l))
-            except ValueError:
-                pass
-    ub = err.count("Undefined Behavior") + err.count("Data race detected")
-    if not lines and ub == 0:
-        return {"inconclusive": "miri produced no results (rc %s): %s" % (p.returncode, err[-400:])}
-    return {"lines": lines, "ub_reports": ub, "stderr_tail": err[-1500:], "wall_s": round(time.time() - t0, 1), "rc": p.returncode}
+from ..sanitize import run_miri  # noqa: E402
